@@ -510,6 +510,7 @@ FRAGMENTS = [
 from .frag_open_positions import FRAGMENT as _F_OPEN_POSITIONS; FRAGMENTS.append(_F_OPEN_POSITIONS)  # noqa: E402,E702
 
 FRAGMENTS.append(("parser", lambda repo: __import__("harness.translate.frag_parser", fromlist=["frag_parser"]).frag_parser(repo), None))
+from .frag_tax_report import frag_tax_report; FRAGMENTS.append(("tax_report", frag_tax_report, None))  # noqa: E402,E702  (C14)
 
 HEADER = """(** GENERATED from /repo's working tree by harness/translate/gen.py -- do not edit. *)
 From RP2V Require Import Base.Prelude Base.Time Base.Dec Model.Types.
